@@ -399,3 +399,12 @@ package main
 //@   modifies inferred
 //@   loop 1
 //@     iterates [C06] owner_is_effective: t.owner != prev(t.owner) ==> (t.owner in t.perUser) && hasO(effMode(t, t.owner))
+
+// Deleting a topic for everybody: only at the owner's request (or the last participant of a p2p topic).
+//@ func (h *Hub) topicUnreg(sess *Session, topic string, msg *ClientComMessage, reason int) (err error)
+//@   requires h != nil && (reason == StopDeleted ==> msg != nil && sess != nil && msg.Del != nil)
+//@   modifies inferred
+//@   assert at call store.TopicsPersistenceInterface.Delete#1 [C06] online_owner_only: (asUid != types.ZeroUid && t.owner == asUid && asUid == types.ParseUserId(msg.AsUser)) || t.cat == types.TopicCatP2P
+//@   assert at call store.TopicsPersistenceInterface.Delete#2 [C06] offline_empty_p2p: tcat == types.TopicCatP2P && len(subs) == 0
+//@   assert at call store.TopicsPersistenceInterface.Delete#4 [C06] offline_last_p2p: tcat == types.TopicCatP2P && len(subs) < 2
+//@   assert at call store.TopicsPersistenceInterface.Delete#3 [C06] offline_owner_only: sub != nil && hasO(sub.ModeGiven & sub.ModeWant) && sub.User == asUid.String() && asUid == types.ParseUserId(msg.AsUser)
